@@ -480,6 +480,9 @@ impl Prop for C18 {
         let n = cli_pool().len();
         for a in 0..n {
             sink(Case::new("cli", format!("S:{a}")));
+            sink(Case::new("cli", format!("E1:{a}")));
+            sink(Case::new("cli", format!("E2:{a}")));
+            sink(Case::new("cli", format!("E3:{a},{a}")));
             for b in 0..n {
                 sink(Case::new("cli", format!("R:{a},{b}")));
                 sink(Case::new("cli", format!("M:{a},{b}")));
@@ -571,6 +574,10 @@ impl Prop for C18 {
             }
             let q = match kind {
                 "R" => idx.iter().map(|i| format!("({})", pool[*i].0)).collect::<Vec<_>>().join(" "),
+                // a failing result after or before the phrase: the phrase was looked up all the same
+                "E1" => format!("({}) (1 / 0)", pool[idx[0]].0),
+                "E2" => format!("(1 / 0) ({})", pool[idx[0]].0),
+                "E3" => format!("({}) (1 m + 1 s) ({})", pool[idx[0]].0, pool[idx[0]].0),
                 _ => format!("{} * {}", pool[idx[0]].0, pool[idx[1]].0),
             };
             let block = match cli_block(&q) {
